@@ -11,15 +11,18 @@ KANI = [dict(mode='ws:gmsol-store', harness=h, timeout=1500, mem_gb=10, fn='Mark
     dict(mode='ws:gmsol-store', harness='c16_model_params_borrowing_funding', timeout=900, fn='impl BorrowingFeeMarket/PerpMarket for Market (parameter accessors)'),
     dict(mode='ws:gmsol-store', harness='c16_model_params_limits', timeout=900, fn='impl BaseMarket for Market (pnl factors, pool/oi limits, reserve factors)'),
     dict(mode='ws:gmsol-store', harness='c16_model_params_closed_market_switch', timeout=900, fn='MarketConfig closed-market parameter switch'),
+    dict(mode='ws:gmsol-store', harness='c16_store_keys_read_their_named_field', timeout=900, fn='Store::get_amount_by_key / get_factor_by_key / get_address_by_key (+ Amounts / Factors / Addresses ::get)'),
+    dict(mode='ws:gmsol-store', harness='c16_store_amount_keys_write_their_named_field_only', timeout=1500, stubs=['Error::with_values'], fn='Store::get_amount_mut (+ Amounts::get_mut, AmountKey::from_str)'),
+    dict(mode='ws:gmsol-store', harness='c16_store_factor_keys_write_their_named_field_only', timeout=1500, fn='Store::get_factor_mut (+ Factors::get_mut, FactorKey::from_str)'),
 ]
 ASSUMPTIONS = []
 UNVERIFIED = [
     'model accessor of the 6 keys Swap/OrderFeeFactorFor{Positive,Negative}Impact and LiquidationFee{Factor,ReceiverFactor}: FeeParams / LiquidationFeeParams expose no getter for these fields (only computed fees); covered indirectly by the frame proof on MarketConfig::get/get_mut',
     'MinTokensForFirstDeposit / MinCollateralFactorForLiquidation model accessors: the latter is covered by the closed-market switch harness; the former has no model accessor in model.rs',
-    'Store::get_amount/get_factor/get_address(_mut) keys: not yet under contract here',
+    'Store keys: the 9 amount keys, 3 factor keys and the address key READ the field named after them (pointer identity) on a fully symbolic store; the amount and factor keys WRITE exactly their own word through the string-keyed accessors (claimable_time_window is write-protected) - the key strings are constants per branch (a symbolic key string makes from_str unbounded for CBMC); get_address_mut is not under a harness',
     'SDK side (crates/programs): see C40',
 ]
 MANIFEST = dict(engine='kani',
     technique='Kani/CBMC: write-one-key/read-every-key with frame on an arbitrary (all words symbolic) MarketConfig, all 66 keys by concrete unrolled loops; flags bit-exact; discriminant guard',
-    text='Exhaustive over keys, symbolic over values and over the whole background config: writing v through key k is read back through k, every other key reads its old value, at most one storage word changes and never the flag word; each key owns its own slot; config flags and market flags likewise (bit-exact); key discriminants beyond the table are rejected.',
-    note='Trusted: Kani/CBMC. Model-parameter accessors and Store amount/factor/address keys: see unverified clauses.')
+    text='Exhaustive over keys, symbolic over values and over the whole background config: writing v through key k is read back through k, every other key reads its old value, at most one storage word changes and never the flag word; each key owns its own slot; config flags and market flags likewise (bit-exact); key discriminants beyond the table are rejected. Store: every amount / factor / address key reads the field named after it, and a write through an amount or factor key changes exactly that word (claimable_time_window cannot be written).',
+    note='Trusted: Kani/CBMC. Model-parameter accessors: see unverified clauses.')
